@@ -115,6 +115,10 @@ func (s *Sandbox) Run(goit string, argv []string, o RunOpts) *Result {
 	for k, v := range o.ExtraEnv {
 		env = append(env, k+"="+v)
 	}
+	if d := os.Getenv("GOCOVERDIR"); d != "" {
+		// tools/coverage.sh only: a goit built with -cover drops its counters there
+		env = append(env, "GOCOVERDIR="+d)
+	}
 	cmd.Env = env
 	cmd.Stdout = fo
 	cmd.Stderr = fe
